@@ -23,7 +23,7 @@ class Prop(BaseProp):
             "item kinds at top level and inside a function body and every ordered triple at top level. Distinct = structural shape of the module "
             "(ids/literals erased); non-trivial = at least 2 expected entries")
     ASSUMPTIONS = ["member/test declarations are immediately followed by their implementing definition",
-                   "implementing definitions carry no doccomment", "default settings (config_default.yaml)",
+                   "for implementing definitions that carry a doccomment of their own neither an entry nor its absence is asserted (all other entries of such a module are)", "default settings (config_default.yaml)",
                    "generic-command arguments with parentheses are compared as token sequences (any spacing around parentheses is accepted)",
                    "kind markers are matched loosely (keywords in note/warning text)"]
     HEADLINE = ["entries_expected", "entries_matched", "modules_with_comments", "documented_api_checked"]
@@ -38,7 +38,7 @@ class Prop(BaseProp):
     def build(self, idx, rng):
         nrand = 5000 if self.tier == "quick" else 60000
         if idx < nrand:
-            b = Builder(rng, p_doc=0.5, max_depth=3, p_clone=0.08, clone_toggle_doc=True)
+            b = Builder(rng, p_doc=0.5, max_depth=3, p_clone=0.08, clone_toggle_doc=True, helpers_in_tests=0.2, p_doc_impl=0.12)
             mod = b.module()
             res_clones = b.clones
             return mod, b, "random"
@@ -146,6 +146,8 @@ class Prop(BaseProp):
             res.violate("stray-top-level-text", f"{page.stray_top_lines()[:3]}", None)
         if len(page.modules()) != 1:
             res.violate("module-directive-count", f"{len(page.modules())} module directives", None)
+        elif page.top and page.top[0].name != "module":
+            res.violate("entry-before-module-directive", f"first top-level directive is '{page.top[0].name}:: {page.top[0].arg}'", None)
         # second observation point: DocumentationAggregator.documented
         if doc is not None:
             api = [(DOC_KIND.get(type(d).__name__, type(d).__name__)) for d in doc.aggregator.documented
